@@ -441,6 +441,38 @@ func runC03(c *Ctx) {
 			}
 		}
 		hn := h.Obj().Pkg().Name() + "." + h.Obj().Name()
+		var filterEnv map[*ssa.FreeVar]ssa.Value
+		if filterFn == nil {
+			// the options are built by option methods / a constructor: read the two fields off the value handed to
+			// the agent-key constructor
+			for _, fn := range w.FuncsOfPkg(pkgPath) {
+				for _, call := range callsIn(fn) {
+					cv, ok := call.(*ssa.Call)
+					if !ok || cv.Call.IsInvoke() {
+						continue
+					}
+					for _, a := range cv.Call.Args {
+						T := derefNamedT(a.Type())
+						if T == nil || T.Obj().Pkg() == nil || !strings.HasSuffix(T.Obj().Pkg().Path(), "agent/ssh") || a.Type() != types.Type(T) {
+							continue
+						}
+						if _, isStruct := T.Underlying().(*types.Struct); !isStruct {
+							continue
+						}
+						if callee := cv.Call.StaticCallee(); callee == nil || callee.Pkg == nil || !strings.HasSuffix(callee.Pkg.Pkg.Path(), "agent/ssh") || callee.Signature.Recv() != nil {
+							continue
+						}
+						if fv, fctx := w.fieldVal(a, "KeyRefreshFilter", nil, 0); fv != nil {
+							filterFn, filterEnv = w.filterFuncOf(fv, fctx, 0)
+						}
+						if lv, lctx := w.fieldVal(a, "CertLabel", nil, 0); lv != nil {
+							lv, _ = resolveCtx(lv, lctx)
+							label = sprintfConst(w, lv)
+						}
+					}
+				}
+			}
+		}
 		if filterFn == nil || name == "" {
 			c.Und("R3.refresh", hn+"|refresh filter", "-", "the handler's refresh filter (a named function) or its HandlerName constant was not found")
 			continue
@@ -449,7 +481,15 @@ func runC03(c *Ctx) {
 		okF := false
 		for _, r := range liveReturns(filterFn) {
 			if cv, ok := r.Results[0].(*ssa.Call); ok && calleeName(cv) == "strings.Contains" {
-				k, isK := strConst(cv.Call.Args[1])
+				sub := cv.Call.Args[1]
+				if u, ok := sub.(*ssa.UnOp); ok && u.Op == token.MUL {
+					if fvar, ok := u.X.(*ssa.FreeVar); ok && filterEnv[fvar] != nil {
+						sub = filterEnv[fvar] // the captured cell's one value
+					}
+				} else if fvar, ok := sub.(*ssa.FreeVar); ok && filterEnv[fvar] != nil {
+					sub = filterEnv[fvar]
+				}
+				k, isK := strConst(sub)
 				okF = isK && k == name && w.Expr(cv.Call.Args[0]) == "p0.Comment"
 			}
 		}
